@@ -22,6 +22,40 @@ NOT_DECIDED = "simultaneous-open races between the two endpoints (interleaving d
 THOROUGH_CONFIGS = ["mux-nodefault", "mux-nohash"]
 
 
+def check_handoff(facts, rep, crate, rid):
+    # the handshake Acknowledge is queued before the accepted stream is handed to the application
+    rep.rule(rid, "acceptor: the Acknowledge emission dominates the (bounded, awaited) hand-off of the stream to the accept queue, and its "
+                       "failure is propagated first (so a dead connection never waits on the application's accept loop)")
+    k7 = 0
+    for b in crate.bodies:
+        handoffs = [bi for bi, t in b.calls() if callee(t) and callee(t)["name"] in ("send", "reserve", "send_timeout")
+                    and "mpsc" in callee(t)["def"] and "Sender::<stream::MuxStream>" in callee(t)["path"]]
+        if not handoffs:
+            continue
+        tr7 = Tracer(facts, b)
+        acks = [bi for bi, t in b.calls() if is_queue_send(t) and "new_acknowledge" in ctors_in(tr7.operand(t["args"][1]))]
+        for h in handoffs:
+            k7 += 1
+            where = "%s (%s)" % (loc_str(b.term(h)["loc"]), b.path)
+            brs = [bi for bi, t in b.calls() if callee(t) and callee(t)["name"] == "branch" and
+                   any(derives_from_call(tr7.operand(t["args"][0]), a) for a in acks)]
+            if any(b.dominates(a, h) for a in acks) and not any(b.dominates(br, h) for br in brs):
+                rep.bad(rid, "ack-failure-stops-handoff", where,
+                        "the result of queueing the handshake Acknowledge is not propagated (`?`) before the stream is handed to the bounded accept "
+                        "queue: while the connection winds down (outbound queue closed) a Connect still buffered in the source then waits on a full "
+                        "accept queue forever, and no pending call is ever failed")
+            elif any(b.dominates(a, h) for a in acks):
+                rep.ok(rid, "ack-failure-stops-handoff", where, "a failed Acknowledge send returns before the hand-off")
+            if any(b.dominates(a, h) for a in acks):
+                rep.ok(rid, "ack-before-handoff", where, "Acknowledge queued on every path to the accept-queue send")
+            else:
+                rep.bad(rid, "ack-before-handoff", where,
+                        "the accepted stream is handed to the (bounded) accept queue before the handshake Acknowledge is queued: the opener "
+                        "waits for the acceptor's application to call accept, and during teardown the closed outbound queue no longer "
+                        "short-circuits the wait on a full accept queue")
+    rep.floor(rid, "accept-queue hand-off sites", k7, 1)
+
+
 def check(facts, rep, tier, cfg):
     crate = facts.crate("penguin_mux")
     if crate is None:
@@ -226,28 +260,7 @@ def check(facts, rep, tier, cfg):
                         rep.ok("C07.R5", "establish-only-requested", where, "replace reachable only when the slot is Requested")
                     else:
                         rep.bad("C07.R5", "establish-only-requested", where, "an Acknowledge can overwrite a slot that is not in the Requested state")
-    # ---- R7 the handshake Acknowledge is queued before the accepted stream is handed to the application
-    rep.rule("C07.R7", "acceptor: the Acknowledge emission dominates the (bounded, awaited) hand-off of the stream to the accept queue, and its "
-                       "failure is propagated first (so a dead connection never waits on the application's accept loop)")
-    k7 = 0
-    for b in crate.bodies:
-        handoffs = [bi for bi, t in b.calls() if callee(t) and callee(t)["name"] in ("send", "reserve", "send_timeout")
-                    and "mpsc" in callee(t)["def"] and "Sender::<stream::MuxStream>" in callee(t)["path"]]
-        if not handoffs:
-            continue
-        tr7 = Tracer(facts, b)
-        acks = [bi for bi, t in b.calls() if is_queue_send(t) and "new_acknowledge" in ctors_in(tr7.operand(t["args"][1]))]
-        for h in handoffs:
-            k7 += 1
-            where = "%s (%s)" % (loc_str(b.term(h)["loc"]), b.path)
-            if any(b.dominates(a, h) for a in acks):
-                rep.ok("C07.R7", "ack-before-handoff", where, "Acknowledge queued on every path to the accept-queue send")
-            else:
-                rep.bad("C07.R7", "ack-before-handoff", where,
-                        "the accepted stream is handed to the (bounded) accept queue before the handshake Acknowledge is queued: the opener "
-                        "waits for the acceptor's application to call accept, and during teardown the closed outbound queue no longer "
-                        "short-circuits the wait on a full accept queue")
-    rep.floor("C07.R7", "accept-queue hand-off sites", k7, 1)
+    check_handoff(facts, rep, crate, "C07.R7")
     # ---- R6 initial credit = the window the other side advertised (re-use of C03.R3/R4)
     rep.rule("C07.R6", "each side's initial send credit is the window carried by the peer's Connect / Acknowledge, and the window it "
                        "advertises is its own (= C03.R3/R4)")
